@@ -307,11 +307,13 @@ class CFG:
                 stack.append(s)
         return seen
 
-    def path_exists(self, src, dst, avoid=(), skip_labels=()):
+    def path_exists(self, src, dst, avoid=(), skip_labels=(), skip_edges=()):
         """Is there a path src ->* dst not passing through `avoid` nodes (src
         itself is allowed even if in avoid) and not using edges with a label in
-        `skip_labels`?"""
+        `skip_labels`, nor the particular (node, label) out-edges in `skip_edges`
+        (branches known to be infeasible for the question asked)?"""
         avoid = set(avoid)
+        skip_edges = {(id(a), b) for a, b in skip_edges}
         seen = set()
         stack = [src]
         first = True
@@ -326,7 +328,7 @@ class CFG:
             if n is dst and n is not src:
                 return True
             for s, lab in n.succ:
-                if lab in skip_labels:
+                if lab in skip_labels or (id(n), lab) in skip_edges:
                     continue
                 if s is dst:
                     return True
